@@ -12,7 +12,7 @@ import ast
 from ..dataflow import reaching_defs
 
 RULE_HM1 = ('HM1: where an array V that can be complex (its producer receives the function\'s tag_complex flag, or it is built with a 1j term) '
-            'is composed with its own transpose (V @ V.T, V + V.T, (V*lam) @ V.T), the transposed factor is conjugated; a bare .T is allowed '
+            'is composed with its own transpose (V @ V.T, V + V.T, V - V.T, (V*lam) @ V.T), the transposed factor is conjugated; a bare .T is allowed '
             'only in the real branch of the flag.')
 
 FLAGS = ('tag_complex',)
@@ -105,9 +105,11 @@ def _callee_complexness(proj, m, v):
 def _complexness(fn, name, at, params, proj=None, m=None):
     """'complex' | 'real' | None for the value of `name` at node `at`"""
     verdicts = []
+    unknown = False
     for v, st, path in reaching_defs(fn, name, at):
         if v == 'param' or not isinstance(v, ast.AST):
-            return None
+            unknown = True
+            continue
         txt = ast.unparse(v).replace(' ', '')
         flag_kw = None
         for c in ast.walk(v):
@@ -125,7 +127,7 @@ def _complexness(fn, name, at, params, proj=None, m=None):
             elif isinstance(flag_kw, ast.Name) and flag_kw.id in params:
                 verdicts.append('real' if _in_real_branch(st, fn) else 'complex')
             else:
-                return None
+                unknown = True
         elif proj is not None and _callee_complexness(proj, m, v) == 'complex':
             verdicts.append('complex')
         elif isinstance(v, ast.Call) and ast.unparse(v.func).endswith(('linalg.eigh', 'linalg.eig')) and v.args \
@@ -133,11 +135,11 @@ def _complexness(fn, name, at, params, proj=None, m=None):
                 and not any(isinstance(a, ast.Assert) and 'iscomplexobj' in ast.unparse(a) for a in ast.walk(fn)):
             verdicts.append('complex')      # eigenvectors of a Hermitian matrix given by the caller (density matrix): complex in general
         else:
-            return None
-    if not verdicts:
-        return None
+            unknown = True
     if 'complex' in verdicts:
-        return 'complex'
+        return 'complex'        # complex on at least one reaching path: the bare transpose is wrong on that path
+    if not verdicts or unknown:
+        return None
     return 'real'
 
 
@@ -150,7 +152,7 @@ def hm1(proj, rep, modules):
         for fi in [f for f in proj.funcs.values() if f.module is m]:
             fn = fi.node
             for b in ast.walk(fn):
-                if not (isinstance(b, ast.BinOp) and isinstance(b.op, (ast.MatMult, ast.Add))):
+                if not (isinstance(b, ast.BinOp) and isinstance(b.op, (ast.MatMult, ast.Add, ast.Sub))):
                     continue
                 ln, lt, lc = _base_of(b.left)
                 rn, rt, rc = _base_of(b.right)
